@@ -127,3 +127,34 @@ func sharesVar(f *core.Fn, a, b ast.Expr) bool {
 	})
 	return hit
 }
+
+// consumedCountsTheDeclaredLength: decodePathAttrs adds up what decodePathAttr reports as consumed and compares it with
+// the Total Path Attribute Length; an attribute whose body decoder reads more or less than the declared length is only
+// noticed because the report is header + DECLARED length (the position then drifts and the walk runs off the field).
+// A report of "octets actually read" makes every over- or under-reading body decoder self-consistent.  Rule: the
+// success return of decodePathAttr reports an expression that contains PathAttribute.Length.
+func consumedCountsTheDeclaredLength(c *core.Ctx) {
+	const rule = "consumed-counts-the-declared-length"
+	p := c.P
+	f := c.MustFunc(pktPkg + ".decodePathAttr")
+	lf := p.Field(pktPkg, "PathAttribute", "Length")
+	if f == nil || lf == nil {
+		return
+	}
+	c.Analysed(f)
+	n := 0
+	ast.Inspect(f.Decl.Body, func(nd ast.Node) bool {
+		if _, isLit := nd.(*ast.FuncLit); isLit {
+			return false
+		}
+		r, ok := nd.(*ast.ReturnStmt)
+		if !ok || len(r.Results) != 3 || !core.IsNilIdent(f.Pkg, r.Results[2]) {
+			return true
+		}
+		n++
+		c.Check(core.MentionsField(f.Pkg, r.Results[1], lf), rule, fmt.Sprintf("%s success return #%d reports header + declared length", f.Name(), n), r.Pos(),
+			"the octet count reported for a decoded attribute does not contain the attribute's declared length: an attribute whose contents are longer or shorter than declared (an AS_PATH with more segment data than its length octet says) is accounted as it was read, the lengths seem to add up, and its UPDATE is accepted")
+		return true
+	})
+	c.Check(n >= 1, rule, "success returns found", f.Decl.Pos(), "decodePathAttr has no success return with three results")
+}
